@@ -929,6 +929,9 @@ fn do_command_substitution_for_dot(sh: &mut Shell, tokens: &mut types::Tokens) {
                 }
                 Err(e) => {
                     println_stderr!("cicada: {}", e);
+                    // empty replacement; idx has to stay in step with the scan
+                    buff.insert(idx, String::new());
+                    idx += 1;
                     continue;
                 }
             };
